@@ -146,6 +146,8 @@ class Opa:
         state = {entry: env0}
         work = [entry]
         new_phis = {}
+        recur_src = {}
+        edge_out = {}
         iters = 0
         while work:
             bb = work.pop()
@@ -237,40 +239,50 @@ class Opa:
                             continue
                         if l in hp:
                             cv = self.collapse(v, out)
-                            res.recur.setdefault((s, l), set()).add(cv)
-                            lst = res.recur_edges.setdefault((s, l), [])
-                            if (cv, out.get(PC, frozenset())) not in lst:
-                                lst.append((cv, out.get(PC, frozenset())))
+                            # keep only the latest (most joined) value per back-edge source
+                            recur_src.setdefault((s, l), {})[bb] = (cv, out.get(PC, frozenset()))
                         elif l in old and old[l] is not None and v is not None and v != old[l]:
                             new_phis.setdefault(s, set()).add(l)
                     continue
-                old = state.get(s)
-                if old is None:
-                    state[s] = dict(out)
-                    if s in headers:
-                        for l in phis.get(s, ()):
-                            res.init[(s, l)] = self.collapse(out.get(l), out)
-                    work.append(s)
+                # the in-state of s is the join of the *latest* out-states of its forward predecessors
+                # (re-processing a predecessor replaces its contribution, so no stale partial values survive)
+                edge_out[(bb, s)] = out
+                contrib = [o for (p2, s2), o in edge_out.items() if s2 == s]
+                if len(contrib) == 1:
+                    new = dict(contrib[0])
                 else:
-                    new = dict(old)
-                    changed = False
-                    for l in set(old) | set(out):
+                    new = {}
+                    keys = set()
+                    for o in contrib:
+                        keys |= set(o)
+                    for l in keys:
                         if l == PC:
-                            j = old.get(PC, frozenset()) & out.get(PC, frozenset())
+                            j = None
+                            for o in contrib:
+                                j = o.get(PC, frozenset()) if j is None else (j & o.get(PC, frozenset()))
                         else:
-                            a, b = old.get(l), out.get(l)
-                            j = join(a, b, self.width)
-                            if j == TOP and a != TOP and b != TOP:
-                                self.stats['top_widenings'] += 1
-                        if j != old.get(l):
-                            new[l] = j
-                            changed = True
-                    if s in headers:
-                        for l in phis.get(s, ()):
-                            res.init[(s, l)] = join(res.init.get((s, l)), self.collapse(out.get(l), out), self.width)
-                    if changed:
-                        state[s] = new
-                        work.append(s)
+                            j = None
+                            for o in contrib:
+                                j = join(j, o.get(l), self.width)
+                        new[l] = j
+                if s in headers:
+                    for l in phis.get(s, ()):
+                        iv = None
+                        for o in contrib:
+                            iv = join(iv, self.collapse(o.get(l), o), self.width)
+                        res.init[(s, l)] = iv
+                if state.get(s) != new:
+                    state[s] = new
+                    work.append(s)
+        for k2, by_src in recur_src.items():
+            res.recur[k2] = {v for (v, _) in by_src.values()}
+            res.recur_edges[k2] = list(by_src.values())
+        # the return value is the join of the *final* states of the return blocks (no stale partial joins)
+        if res.returns:
+            rt = None
+            for (_, term, _) in res.returns:
+                rt = join(rt, term, self.width)
+            res.ret = rt
         if res.ret is None:
             res.ret = ('never',)
         return res, new_phis
